@@ -9,7 +9,7 @@
    that the real blocks are distinct, and all assignment / swap / allocator paths, are decided
    by the correspondence check (DESIGN.md, C12). *)
 From Coq Require Import ZArith List Bool.
-From Cntgs Require Import Base Layout Mem Vector Proxy Elem World Spec Rep ElemThm AssignThm MoveThm.
+From Cntgs Require Import Base Layout Mem Vector Proxy Elem World Spec Rep ElemThm AssignThm MoveThm ByteElem.
 Import ListNotations.
 Local Open Scope Z_scope.
 
@@ -110,3 +110,14 @@ Theorem C12_element_move_assignment_fieldwise : forall L, wf_plist L = true ->
   e_bid src' = e_bid src /\ nb' = nb.
 Proof. exact elem_move_assign_fieldwise_spec. Qed.
 Print Assumptions C12_element_move_assignment_fieldwise.
+
+(* an element over an allocator of std::byte (the alias cntgs::ContiguousElement): the block
+   requested for it is a whole number of storage units that covers the element's
+   size_in_bytes() and exceeds it by less than one unit — whatever the allocator's value_type;
+   that the real element then is a faithful, aligned copy is the correspondence marker EBYTE *)
+Theorem C12_byte_allocator_element_block : forall K L w s i, wf_plist L = true ->
+  0 <= ref_bytes L (vfl L (getv w s) i) ->
+  exists b, w_out (step K L w (OpEByte s i)) = OEByte true b :: w_out w /\
+    ref_bytes L (vfl L (getv w s) i) <= b < ref_bytes L (vfl L (getv w s) i) + SA L /\ (SA L | b).
+Proof. exact byte_element_block. Qed.
+Print Assumptions C12_byte_allocator_element_block.
